@@ -444,6 +444,7 @@ class Machine:
                'f64::EPSILON': ('f', T.fconst(Fraction(1, 2 ** 52))), 'f64::MAX': ('f', T.fconst(Fraction((2 ** 53 - 1) * 2 ** 971))),
                'f64::MIN_POSITIVE': ('f', T.fconst(Fraction(1, 2 ** 1022)))}
         cc = re.sub(r'^(std|core)::', '', c)
+        cc = re.sub(r'^(f64|f32|usize|u64)::<impl (?:f64|f32|usize|u64)>::', r'\1::', cc)
         if cc in std:
             return std[cc]
         # named crate constant: evaluate its own MIR item
